@@ -28,7 +28,7 @@ def run(tier, replay):
         states += mc["distinct"]; trans += mc["generated"]
     # (1b) unbounded: the same statement for window maps over ANY set of servers and ANY natural timestamps, proved by
     # TLAPS from the same KRange module (KRangeProof.tla)
-    proof = prove(wd)
+    proof = lib.tlapm_prove("KRangeProof", ["KRange"], PID, "C10Unbounded: \\A c, s : WF(c) /\\ WF(s) => L2MeetsL1(c, s)")
     # (2) the same input spaces through the REAL range_diff, judged by L1 in TLC
     obs = f"{wd}/obs.ndjson"
     if replay:
@@ -61,30 +61,6 @@ def run(tier, replay):
     }
     R.assumptions = ["timestamps are whole seconds in the replayed space; server ids map s1..sN to fixed uuids"]
     R.finish()
-
-def prove(wd):
-    """tlapm on KRangeProof (EXTENDS the checked KRange module itself); a failed obligation is a defect of the
-    specification library, not of kanidm: tool error."""
-    import os, re, shutil, subprocess
-    pd = f"{wd}/proof"
-    shutil.rmtree(pd, ignore_errors=True)
-    os.makedirs(pd)
-    for f in ("KRange.tla", "KRangeProof.tla"):
-        shutil.copy(f"{lib.ROOT}/spec/{f}", pd)
-    try:
-        p = subprocess.run(["tlapm", "--threads", "4", "KRangeProof.tla"], cwd=pd, stdout=subprocess.PIPE,
-                           stderr=subprocess.STDOUT, text=True, timeout=1200)
-    except subprocess.TimeoutExpired:
-        lib.tool_error("tlapm KRangeProof timed out")
-    open(f"{wd}/tlapm_KRangeProof.log", "w").write(p.stdout)
-    m = re.search(r"All (\d+) obligations proved", p.stdout)
-    if p.returncode != 0 or not m:
-        print(p.stdout[-1500:])
-        lib.tool_error(f"tlapm did not prove KRangeProof (log {wd}/tlapm_KRangeProof.log)")
-    shutil.rmtree(pd, ignore_errors=True)
-    return {"prover": "tlapm (TLAPS 1.6.0-pre; SMT/Zenon/Isabelle back ends)", "module": "KRangeProof",
-            "theorem": "C10Unbounded: \\A c, s : WF(c) /\\ WF(s) => L2MeetsL1(c, s)", "obligations_proved": int(m.group(1))}
-
 
 def replay_file(path, wd):
     # a replay file holds observed lines; re-observe the same inputs on the current tree
